@@ -328,6 +328,11 @@ class WSStream:
 
     async def app_send(self, message: Optional[ASGISendEvent]) -> None:
         if self.closed:
+            if message is not None and self.state == ASGIWebsocketState.HTTPCLOSED:
+                # The app has itself refused the handshake, with a
+                # complete response: whatever it sends now is an error
+                # of its own rather than a connection that has gone.
+                raise UnexpectedMessageError(self.state, message["type"])
             # Allow app to finish after close
             return
 
@@ -373,6 +378,9 @@ class WSStream:
             ):
                 self.state = ASGIWebsocketState.HTTPCLOSED
                 await self._send_error_response(403)
+                # That is all there is to this stream, an app that waits
+                # for its disconnect message is not to wait for ever.
+                await self.send(StreamClosed(stream_id=self.stream_id))
             elif (
                 message["type"] == "websocket.close" and self.state == ASGIWebsocketState.CONNECTED
             ):
